@@ -13,7 +13,7 @@ PROP = {
         ],
         "lanes": [
             native("c19"),
-            miri("c19", seeds_q=0, seeds_t=8, args={"per-site": 1}, timeout={"thorough": 2400}),
+            miri("c19", seeds_q=0, seeds_t=16, args={"cases": 12}, timeout={"thorough": 2400}),
             san("asan", "c19", scale=5),
         ],
     }
